@@ -30,6 +30,7 @@ RULE = ('(a) random Unicode text and raw bytes (invalid UTF-8, NUL, CR, BOM) thr
         'prefix) pairs are counted separately; every input is a distinct case')
 ASSUMPTIONS = ['inputs nested deeper than 40 levels are outside the property\'s stated bound (Python recursion limit in the coroutine parser)',
                'per-input wall-clock watchdog of 10 s only ever yields "inconclusive"']
+REQUIRED_HIDC_FUNCTIONS = ['errors:CompilerError.get_info', 'parser/rules:expect']     # M-COV: deciding code never entered => inconclusive
 MIN_NONTRIVIAL = {'quick': 3000, 'thorough': 20000}
 
 
